@@ -61,6 +61,7 @@ type recorder struct {
 
 	pevEvery    int
 	pevCanaries []int
+	parser      *jmespath.Parser
 	tokCanaries []int
 }
 
@@ -126,6 +127,31 @@ func (r *recorder) run(text string, doc interface{}, reps int, canary string) {
 		ev["panic"] = co.Err
 	}
 	r.emit(ev)
+	if r.parser != nil {
+		// the same text on ONE Parser object that is reused for every text of the trace (C13: the verdict and the
+		// tree are a function of the text, whatever the parser saw before)
+		var node jmespath.ASTNode
+		po := direct(func() (interface{}, error) {
+			var err error
+			node, err = r.parser.Parse(text)
+			return nil, err
+		})
+		pe := map[string]interface{}{"op": "Parse", "h": r.h, "text": bytesToCps(text), "ok": po.Kind == "ok", "ast": []interface{}{}}
+		if po.Kind == "ok" {
+			if direct(func() (interface{}, error) { pe["ast"] = nodeAST(node); return nil, nil }).Kind != "ok" {
+				pe["ast"] = []interface{}{}
+			}
+		}
+		if po.Kind == "panic" {
+			pe["panic"] = po.Err
+		}
+		if r.h%211 == 0 { // canary: a flipped verdict must be reported by Trace_Api
+			pe["ok"] = !(po.Kind == "ok")
+			pe["ast"] = []interface{}{}
+			r.canaries = append(r.canaries, map[string]interface{}{"line": r.line + 1, "kind": "parse"})
+		}
+		r.emit(pe)
+	}
 	if jp == nil {
 		return
 	}
@@ -192,7 +218,7 @@ func hasBigNum(t []interface{}) bool {
 
 var rndNames = []string{"a", "b", "c", "foo", "bar", "\"with space\"", "\"é\"", "_x1"}
 var rndFuncs1 = []string{"abs", "avg", "ceil", "floor", "keys", "length", "max", "min", "reverse", "sort", "sum", "to_array", "to_string", "to_number", "type", "values", "not_null"}
-var rndLits = []string{"`1`", "`0`", "`-1`", "`0.5`", "`\"a\"`", "`null`", "`true`", "`false`", "`[]`", "`{}`", "`[1,2]`", "`{\"a\":1}`", "'a'", "''", "'b c'"}
+var rndLits = []string{"`1`", "`0`", "`-1`", "`0.5`", "`\"a\"`", "`null`", "`true`", "`false`", "`[]`", "`{}`", "`[1,2]`", "`{\"a\":1}`", "'a'", "''", "'b c'", "'it\\'s'", "'\\''"}
 var rndCmp = []string{"==", "!=", "<", "<=", ">", ">="}
 
 func (r *recorder) expr(depth int) string {
@@ -315,6 +341,7 @@ func cmdRecord(args []string) int {
 	corpus := fs.Bool("corpus", true, "include the compliance corpus")
 	canEvery := fs.Int("canary-every", 400, "inject a canary every N expressions")
 	pevEvery := fs.Int("pev-canary-every", 0, "corrupt the logged parser steps of every Nth compile (Trace_Parse must report each)")
+	reuse := fs.Bool("reuse-parser", false, "also parse every text on one reused Parser object (op Parse)")
 	mutants := fs.Int("mutants", 0, "number of near-miss texts (one character deleted / inserted / replaced) that are only compiled")
 	fs.Parse(args)
 	f, err := os.Create(*out)
@@ -324,6 +351,9 @@ func cmdRecord(args []string) int {
 	}
 	defer f.Close()
 	r := &recorder{enc: json.NewEncoder(f), rng: rand.New(rand.NewSource(*seed)), pevEvery: *pevEvery}
+	if *reuse {
+		r.parser = jmespath.NewParser()
+	}
 	count := 0
 	can := func() string {
 		count++
@@ -368,9 +398,18 @@ func cmdRecord(args []string) int {
 			continue
 		}
 		k := r.rng.Intn(len(e))
-		switch r.rng.Intn(3) {
+		kind := r.rng.Intn(4)
+		if idx := strings.Index(string(e), "\\'"); idx >= 0 && r.rng.Intn(2) == 0 {
+			// cut inside a raw string just after an escaped quote: an unclosed literal that has already written to the lexer's buffer
+			e = e[:idx+2]
+			kind = -1
+		}
+		switch kind {
+		case -1:
 		case 0:
 			e = append(e[:k:k], e[k+1:]...)
+		case 3:
+			e = e[:k+1] // an incomplete text: a prefix
 		case 1:
 			e = append(e[:k:k], append([]byte{punct[r.rng.Intn(len(punct))]}, e[k:]...)...)
 		default:
